@@ -10,6 +10,7 @@ import MotoModel.Proofs.DiskExtract
 import MotoModel.Proofs.DiskSmall
 import MotoModel.Props.C04
 import MotoModel.Proofs.DiskOrder
+import MotoModel.Proofs.DiskBatchOrder
 namespace Moto.C02
 open Moto Moto.Disk
 
@@ -151,6 +152,29 @@ theorem create_then_extract (fl : Flavour) (w : Tape.World) (verbose : Bool) (ar
     · rw [fresh_has_no_file k j hk hj] at h; cases h
     · exact h
 
+/-- **C02 (create, then extract beside the archive)**: without `--into` the round trip needs no hypothesis
+    on paths — the members are written under `dirname archive/sideN/`, none can be the archive: for every
+    list of sources with ordinary catalog names `--create` returns 0 and writes the archive of a consistent
+    image, and `--extract` of that archive returns 0 and writes exactly the files of the image. -/
+theorem create_then_extract_beside_archive (fl : Flavour) (w : Tape.World) (verbose : Bool) (archive : Str) (srcs : List Str)
+    (hs : ∀ src ∈ srcs, OrdinarySrc src) (verbose2 : Bool) :
+    ∃ img, ImgOk img
+      ∧ (create fl w verbose archive srcs).status = .ret 0
+      ∧ (create fl w verbose archive srcs).writes = [(archive, save fl img)]
+      ∧ (extract fl verbose2 archive none (save fl img)).status = .ret 0
+      ∧ (extract fl verbose2 archive none (save fl img)).writes = sidesFiles (dirname archive) img 0 := by
+  obtain ⟨st, hst, hok, _, hof⟩ := performCore_files w verbose _ srcs fresh_img_ok (fun s h => (hs s h).1)
+  have hnice : ∀ k, k < 4 → NiceSide (st.img.getD k []) := by
+    apply nice_after hof _ hs
+    intro k hk j f hj hf
+    have := fresh_has_no_file k j hk hj
+    unfold imgFileAt at this
+    rw [this] at hf; cases hf
+  obtain ⟨hx1, hx2⟩ := extract_consistent_default fl verbose2 archive st.img hok hnice
+  refine ⟨st.img, hok, ?_, ?_, hx1, hx2⟩
+  · unfold create performOn; rw [if_neg (by simp), hst]
+  · unfold create performOn; rw [if_neg (by simp), hst]
+
 /-- non-vacuity: "a.bas" is an ordinary source -/
 example : OrdinarySrc (Tape.str "a.bas") := by
   refine ⟨by unfold CleanSrc; decide, ?_⟩
@@ -233,5 +257,46 @@ theorem small_batch_in_order (fl : Flavour) (w : Tape.World) (verbose : Bool) (a
 /-- the name a source is extracted under, on examples: upper case, 8.3, the `,a` option dropped -/
 example : diskName (Tape.str "dir.d/prog.bas,a") = Tape.str "PROG.BAS" ∧ diskName (Tape.str "noext") = Tape.str "NOEXT."
     ∧ diskName (Tape.str "a.b") = Tape.str "A.B" := by decide +kernel
+
+/-- **C02 (the created image holds, side by side, exactly the sources stored there, in the order given)**:
+    for every list of source arguments (any contents, sizes, end-of-side markers, missing files, refusals,
+    retries) there is a list `placed` of (side, source) — a sub-sequence of the command line in command-line
+    order, the sides never decreasing — such that `--create` writes the archive of a consistent image whose
+    side `k` holds, in catalog order, exactly the files of the sources placed on `k`, in that order: for each,
+    the content the argument designates under the entry bytes written for that argument (`FileOf`). -/
+theorem create_stores_sources_in_order (fl : Flavour) (w : Tape.World) (verbose : Bool) (archive : Str) (srcs : List Str)
+    (hs : ∀ src ∈ srcs, CleanSrc src) :
+    ∃ (img : Image) (placed : List (Nat × Str)), ImgOk img
+      ∧ (create fl w verbose archive srcs).writes = [(archive, save fl img)]
+      ∧ (placed.map (·.2)).Sublist srcs ∧ (placed.map (·.1)).Pairwise (· ≤ ·) ∧ (∀ p ∈ placed, p.1 < 4)
+      ∧ ∀ k, k < 4 → FilesOf w (sideList (img.getD k [])) ((placed.filter (fun p => p.1 == k)).map (·.2)) := by
+  obtain ⟨st, placed, hst, hok, h3, h4, h5, h6⟩ := create_ordered w verbose srcs hs
+  refine ⟨st.img, placed, hok, ?_, h3, h4, h5, h6⟩
+  unfold create performOn; rw [if_neg (by simp), hst]
+
+/-- **C02 (… and `--list` / `--extract` show them in that order)**: the files `--extract` writes for a side
+    (`sideFiles`, C07) are the side's files in catalog order under the names read from their entries; the
+    lines of `--list` name them in the same order; a stored source is listed and extracted under `diskName`
+    of its argument with the content the argument designates. -/
+theorem listing_and_extraction_follow_catalog_order {sd : Side} {bat : List Nat} {own : Nat → List Nat} (inv : SideInv sd bat own) (dir : Str) :
+    sideFiles sd dir = (sideList sd).map (fun f => (pathJoin dir (fileNameOf ⟨1, f.1, []⟩), f.2))
+    ∧ (sideEvs sd).map (fun ev => (ev.name, ev.ext)) = (sideList sd).map (fun f => (slice f.1 0 8, slice f.1 8 11))
+    ∧ ∀ (w : Tape.World) (src : Str) (f : Bytes × Bytes), FileOf w src f →
+        fileNameOf ⟨1, f.1, []⟩ = diskName src ∧ w (splitSource src).2.2.2 = some f.2 :=
+  ⟨sideFiles_eq_sideList sd dir, sideEvs_names inv, fun w src f h => fileOf_name w src f h⟩
+
+/-- **C02 / C10 (adding to an image whose catalogs have no hole)**: `--add` with any batch appends, on every
+    side, the files of the sources placed there after the files that were there, in command-line order. -/
+theorem add_appends_sources_in_order (fl : Flavour) (w : Tape.World) (verbose : Bool) (archive : Str) (img : Image) (srcs : List Str)
+    (himg : ImgOk img) (hp : ∀ k, k < 4 → ∃ n, n ≤ 112 ∧ Seq n (img.getD k [])) (hs : ∀ src ∈ srcs, CleanSrc src) :
+    ∃ (img' : Image) (placed : List (Nat × Str)), ImgOk img'
+      ∧ (add fl w verbose archive (save fl img) srcs).writes = [(archive, save fl img')]
+      ∧ (placed.map (·.2)).Sublist srcs ∧ (placed.map (·.1)).Pairwise (· ≤ ·) ∧ (∀ p ∈ placed, p.1 < 4)
+      ∧ ∀ k, k < 4 → ∃ fs, sideList (img'.getD k []) = sideList (img.getD k []) ++ fs
+          ∧ FilesOf w fs ((placed.filter (fun p => p.1 == k)).map (·.2)) := by
+  obtain ⟨st, placed, hst, hok, _, h4, h5, h6, h7⟩ := performCore_ordered w verbose img srcs himg hp hs
+  rw [add_on_saved fl w verbose archive img srcs himg]
+  refine ⟨st.img, placed, hok, ?_, h4, h5, h6, h7⟩
+  unfold performOn; rw [if_neg (by rw [himg.1]; omega), hst]
 
 end Moto.C02
